@@ -65,6 +65,12 @@ func (t *recTarget) Fetch(ctx context.Context, target ocispec.Descriptor) (rc io
 
 const manifestCap = 4 * 1024 * 1024 // the cap on signature manifests: a manifest of exactly this size does not exceed it
 
+// another artifact type: an unrelated one, or a near miss of the signature type (letter case, an extension, a prefix of it)
+func foreignArtifactType(k int) string {
+	return []string{"application/vnd.example.sbom", "application/vnd.cncf.notary.Signature", "application/vnd.cncf.notary.signature.v2",
+		"APPLICATION/VND.CNCF.NOTARY.SIGNATURE", "application/vnd.cncf.notary.signatur"}[k%5]
+}
+
 const artifactTypeNotation = "application/vnd.cncf.notary.signature"
 const mediaTypeLegacyArtifact = "application/vnd.oci.artifact.manifest.v1+json"
 
@@ -209,7 +215,7 @@ func runSigRepo() int {
 			case "legacySig", "legacyForeign":
 				at := artifactTypeNotation
 				if it.Kind == "legacyForeign" {
-					at = "application/vnd.example.sbom"
+					at = foreignArtifactType(c.ID + n)
 				}
 				rec.mt = mtJWS
 				l := layer(blob, rec.mt)
@@ -217,7 +223,7 @@ func runSigRepo() int {
 				must(err)
 				rec.manifest = d
 			case "foreignType":
-				rec.manifest = img("application/vnd.example.sbom.config", &subj, []ocispec.Descriptor{layer(blob, "application/spdx+json")}, 0)
+				rec.manifest = img(foreignArtifactType(c.ID+n), &subj, []ocispec.Descriptor{layer(blob, "application/spdx+json")}, 0)
 			case "subjDigest":
 				alt.Digest = digest.FromString("an artifact that differs from " + it.S + " only by digest")
 				rec.manifest = img(artifactTypeNotation, &alt, []ocispec.Descriptor{layer(blob, mtJWS)}, 0)
